@@ -78,5 +78,8 @@ def unique_minimiser(A, z, g, tol):
         S = (z > tol) | (np.abs(g) <= tol)
         if not S.any():
             return True
-        s = np.linalg.svd(A[:, S], compute_uv=False)
+        AS = A[:, S]
+        if AS.shape[1] > AS.shape[0]:
+            return False
+        s = np.linalg.svd(AS, compute_uv=False)
         return bool(s.min() > 1e-8 * max(1.0, s.max()))
